@@ -32,12 +32,6 @@ func must[T any](v T, err error) T {
 	return v
 }
 
-func must0(err error) {
-	if err != nil {
-		panic(engine.HarnessError{Msg: fmt.Sprintf("harness setup failed: %v", err)})
-	}
-}
-
 func stream(label string) *det.Stream { return det.New(seedValue(), "c08/"+label) }
 
 // memo caches expensive immutable setup (keys, honest proofs) across executions.
@@ -168,6 +162,8 @@ type sigCase[X sigma.Statement, W sigma.Witness, A sigma.Statement, S sigma.Stat
 	extract func(p sigma.Protocol[X, W, A, S, Z], x X, a A, es []sigma.ChallengeBytes, zs []Z) (W, error)
 	// heavy marks Paillier-sized protocols (leaf-level bit alphabet, Fiat-Shamir only in quick)
 	heavy bool
+	// noSimulator is the documented refusal of RunSimulator (nil = the protocol has a fixed-challenge simulator)
+	noSimulator error
 	// unitMS is the approximate cost of one Fiat-Shamir verification in ms (static; sizes chunks and quick alphabets)
 	unitMS int
 }
@@ -220,12 +216,10 @@ type niInst struct {
 	recode func(c compiler.Name, proof []byte) ([]byte, error)
 	// nils lists the nil components of the decoded proof (error when decoding fails)
 	nils func(c compiler.Name, proof []byte) ([]string, error)
-	// zkChild runs (in a child process) the interactive protocol with edit idx applied to message m
-	zkChild func(m, idx int) (bool, string)
 	// sigmaLevel runs the sigma-level checks for this protocol
 	sigmaLevel func(x *engine.X)
-	// zkRun runs the interactive compiler honestly / with one message edit
-	zkRun func(x *engine.X)
+	// zk is the interactive zk-compiler run of this protocol
+	zk *interactive
 }
 
 func (c *sigCase[X, W, A, S, Z]) pick(sel stmtSel) X {
@@ -328,8 +322,7 @@ func (c *sigCase[X, W, A, S, Z]) ni() *niInst {
 		}
 	}
 	n.sigmaLevel = func(x *engine.X) { sigmaLevel(x, c) }
-	n.zkRun = func(x *engine.X) { zkRun(x, c, n) }
-	n.zkChild = func(m, idx int) (bool, string) { return zkChildRun(c, m, idx) }
+	n.zk = zkIA(c)
 	register(n)
 	return n
 }
